@@ -68,6 +68,13 @@ def pool_models(seed, tag, n):
         else:
             spec = rand.rand_model(r, size, n_ctcs=r.randint(0, 3), ctc_depth=2,
                                    group_kinds=("alternative", "or", "mutex", "cardinality"), abstract_p=0.2)
+        if size > 1 and k % 3 == 1:
+            # constraints made of AND/OR only, nested 3-4 deep (no implication/negation to rewrite)
+            names = S.feature_names(spec)
+            for q in range(2):
+                spec["ctcs"].append({"name": f"deep{q}", "ast": rand.rand_formula(r, r.sample(names, min(4, len(names))), r.randint(3, 4), ("AND", "OR"))
+                                     if len(names) > 1 else names[0]})
+            spec["ctcs"] = [c for c in spec["ctcs"] if isinstance(c["ast"], list)]
         if size > 1 and (k % 2 == 0 or tag == "shared"):
             spec = rand.shared_vocabulary(spec, r, size=40)   # same names, different positions, across the pool
         out.append(spec)
@@ -361,6 +368,49 @@ def run_gra_missing_domain(acc, spec):
                      f"raises:{type(e).__name__}", f"{type(e).__name__}: {e}", payload)
 
 
+def run_gra_after_failure(acc, spec_x, spec_y, rseed):
+    """History: an execution on model X is rejected (missing domain); the domain is then set and the SAME
+    operation object is executed on a different model Y.  X must stay untouched and Y must get exactly what a
+    fresh operation object produces for the same random seed."""
+    from flamapy.core.exceptions import FlamaException
+    from flamapy.metamodels.fm_metamodel.models import Domain, Range
+    from flamapy.metamodels.fm_metamodel.operations import GenerateRandomAttribute
+    W = "GenerateRandomAttribute"
+    payload = {"kind": "gra-after-failure", "x": spec_x, "y": spec_y, "rseed": rseed}
+    mx, my, my2 = S.build(spec_x), S.build(spec_y), S.build(spec_y)
+    snap_x = S.snapshot(mx)
+    op = GenerateRandomAttribute()
+    op.set_name("cost")
+    try:
+        op.execute(mx)
+        acc.count("gra-after-failure:first-call-did-not-fail")
+    except FlamaException:
+        pass
+    except Exception:  # noqa: BLE001 - judged by the missing-domain clause
+        return
+    dom = Domain([Range(0, 50)], ["lo", "hi"])
+    op.set_domain(dom)
+    try:
+        random.seed(rseed)
+        op.execute(my)
+        fresh = GenerateRandomAttribute()
+        fresh.set_name("cost")
+        fresh.set_domain(dom)
+        random.seed(rseed)
+        fresh.execute(my2)
+    except Exception as e:  # noqa: BLE001
+        acc.fail("gra:after-failure", "no-exception", W, [], f"raises:{type(e).__name__}", str(e)[:200], payload)
+        return
+    if S.snapshot(mx) != snap_x:
+        acc.fail("gra:after-failure", "only-the-current-argument-is-touched", W, [], "earlier-model-mutated",
+                 "the model of the earlier, rejected execution was modified by the later execution", payload)
+    elif S.observe(my) != S.observe(my2):
+        acc.fail("gra:after-failure", "result-depends-only-on-argument", W, [], "history-dependent",
+                 "values differ from those a fresh operation object draws for the same seed", payload)
+    else:
+        acc.held("gra:after-failure", S.digest(["gra-after", spec_x, spec_y, rseed]))
+
+
 def run_gra(acc, desc):
     seed, i, n = desc["seed"], desc["shard"], desc["nshards"]
     for j in range(desc["n_gra"]):
@@ -380,6 +430,9 @@ def run_gra(acc, desc):
             run_gra_case(acc, spec, dkind, ranges, elements, only_leaf, s, preset, payload)
         if j < 3 * n:
             run_gra_missing_domain(acc, spec)
+            other = rand.rand_model(rand.rng(seed, "c19gra-other", j), r.randint(2, 12),
+                                    group_kinds=("alternative", "or"))
+            run_gra_after_failure(acc, spec, other, j)
         if len(acc.samples) < 3:
             acc.sample({"gra": {"features": len(names), "domain": [dkind, ranges, elements],
                                 "only_leaf": only_leaf, "preset": sorted(preset)[:5]}})
@@ -419,6 +472,8 @@ def replay(payload, acc):
     if payload.get("kind") == "gra" and payload.get("spec"):
         run_gra_case(acc, payload["spec"], payload["dkind"], payload["ranges"], payload["elements"],
                      payload["only_leaf"], payload["rseed"], set(payload["preset"]), payload)
+    elif payload.get("kind") == "gra-after-failure":
+        run_gra_after_failure(acc, payload["x"], payload["y"], payload["rseed"])
     elif payload.get("kind") == "gra-missing-domain":
         run_gra_missing_domain(acc, payload["spec"])
     elif payload.get("kind") == "history":
